@@ -206,7 +206,7 @@ func runParent(args []string) error {
 		mu.Lock()
 		defer mu.Unlock()
 		defer cond.Broadcast()
-		if j.Attempt == 1 && res.Hung && res.Err == "" && *rerunCap > 0 {
+		if j.Attempt == 1 && res.Hung && res.Err == "" && *rerunCap > 0 && j.DeadlineMs < *longMs {
 			w := wins[res.HangWindow]
 			if w == nil {
 				w = &winState{}
